@@ -92,11 +92,11 @@ CHECKS["C19"] = dict(
     category="proof",
     text="The exit-code decision logic of `isla check` / `isla parse` is modelled over an abstract classification of the files (grammar "
     "missing/malformed/empty/ok, each constraint malformed/ok, input none/several/one(in grammar?, satisfies all?)); theorems: exit 0 iff all "
-    "ok and the input is a member satisfying the conjunction (check_exit0_iff), otherwise exit 1 (check_exit1), malformed -> 65, missing -> 2, "
+    "ok and the input is a member satisfying the conjunction (check_exit0_iff), otherwise exit 1 (check_exit1), malformed -> 65, a constraint that parses but cannot be evaluated on the member input (ill-typed predicate arguments) -> 65 (not_evaluable_exit), missing -> 2, "
     "totality (exit_codes), parse writes a tree iff exit 0; the two exit-code constants are regenerated from cli.py on every run "
     "(documented_codes re-checked). Tie: isla.cli.main run in-process (SystemExit captured; any other exception = traceback = failing input) "
     "and in subprocesses on file sets covering every row, with membership decided by the verified recognizer and satisfaction by an independent "
-    "string-level oracle; solve->check and parse->check pipes.",
+    "string-level oracle; solve->check (exact solutions from --output-dir, handed to check as --input-string, as redirected stdout and as the written file) and parse->check pipes.",
     design_ref="DESIGN.md section 7 C19",
     note="Only check/parse (and the two pipes) are covered by the decision-table model; repair/mutate/fuzz/find/create and further option "
     "combinations are not modelled. argparse behaviour, file I/O and ANTLR are trusted. The satisfaction oracle covers the constraint templates used.",
